@@ -907,14 +907,21 @@ void* DOMDocumentImpl::allocate(XMLSize_t amount)
     // The size of the header we add to our raw blocks
     XMLSize_t sizeOfHeader = XMLPlatformUtils::alignPointerForNewBlockAllocation(sizeof(void *));
 
-    // Get a new block from the system allocator.
+    // Get a new block from the system allocator. The configured block
+    // size (Initialize() parameters, setMemoryAllocationBlockSize()) is
+    // not guaranteed to have room for the header plus this request, so
+    // make the block at least that large.
+    XMLSize_t blockSize = fHeapAllocSize;
+    if (blockSize < sizeOfHeader + amount)
+      blockSize = sizeOfHeader + amount;
+
     void* newBlock;
-    newBlock = fMemoryManager->allocate(fHeapAllocSize);
+    newBlock = fMemoryManager->allocate(blockSize);
 
     *(void **)newBlock = fCurrentBlock;
     fCurrentBlock = newBlock;
     fFreePtr = (char *)newBlock + sizeOfHeader;
-    fFreeBytesRemaining = fHeapAllocSize - sizeOfHeader;
+    fFreeBytesRemaining = blockSize - sizeOfHeader;
 
     if(fHeapAllocSize<kMaxHeapAllocSize)
       fHeapAllocSize*=2;
